@@ -46,6 +46,7 @@ func (w mtW) Offsets() (int64, int64) { return w.InputOffset, w.OutputOffset }
 
 type wcodec struct {
 	Name   string
+	Big    bool // chunks large enough for the compressor to reach the sink inside Write
 	New    func(io.Writer) wrt
 	Decode func(sink []byte) (plain []byte, ok bool) // complete-stream decode
 }
